@@ -12,10 +12,11 @@
     C07; the order of the calls is read off connection.go and explored by the simstream units with
     duplicated / corrupted / truncated datagrams) and DERIVES, instead of assuming:
       - from C05's ideal-integrity theorem: every processed packet was sealed by the sender;
-      - from C07's invariant [invW]: no packet number is processed twice, unless it fell at or below
-        the watermark of numbers forgotten through the MaxNumAckRanges limit. *)
+      - from C07's invariant [dup_inv] (RecvPH.DupAlways, model of the history repaired by
+        fixes/C07-trimmed-history-counts-as-received.patch, /repo 4675722): no packet number is processed
+        twice, in every history - also behind more than MaxNumAckRanges gaps. *)
 From Coq Require Import List ZArith Bool Lia Arith.
-From V Require Import Gen.Params RecvPH.Model RecvPH.ProofsHist RecvPH.ProofsAck RecvPH.ProofsDupTrace
+From V Require Import Gen.Params RecvPH.Model RecvPH.ProofsHist RecvPH.ProofsAck RecvPH.ProofsDupTrace RecvPH.DupAlways
   PktProt.Protect PktProt.ProtectProofs.
 Import ListNotations.
 Open Scope Z_scope.
@@ -41,18 +42,18 @@ Definition is_app_recv (o : op) : bool :=
   end.
 
 Record nst := mkN {
-  n_h : handler; n_W : wmap; n_tr : list (op * res);
+  n_h : handler; n_tr : list (op * res);
   n_procs : list (Z * Z * list Z);     (* packet number, key phase, plaintext of the packets whose frames were handled *)
   n_closed : bool
 }.
-Definition nst0 : nst := mkN newHandler (fun _ => None) [] [] false.
+Definition nst0 : nst := mkN newHandler [] [] false.
 
 Definition nstep (s : nst) (e : nev) : nst :=
   if n_closed s then s else
   match e with
   | NOther o =>
     if is_app_recv o then s      (* 1-RTT receptions only happen through NArrive *)
-    else mkN (fst (step (n_h s) o)) (wstep (n_h s) (n_W s) o) (n_tr s ++ [(o, snd (step (n_h s) o))]) (n_procs s) false
+    else mkN (fst (step (n_h s) o)) (n_tr s ++ [(o, snd (step (n_h s) o))]) (n_procs s) false
   | NArrive data cidLen largest ecn t ae =>
     match unprotect aead_open hp_mask false (S cidLen) largest data with
     | UOk first pn pnLen kp p =>
@@ -62,10 +63,10 @@ Definition nstep (s : nst) (e : nev) : nst :=
       | RB false =>
         let o := Recv pn ecn L1 t ae in
         let r2 := snd (step (n_h s) o) in
-        mkN (fst (step (n_h s) o)) (wstep (n_h s) (n_W s) o) (tr1 ++ [(o, r2)])
+        mkN (fst (step (n_h s) o)) (tr1 ++ [(o, r2)])
             (n_procs s ++ [(pn, kp, p)])                      (* handleFrames ran *)
             (match r2 with ROk => false | _ => true end)      (* ReceivedPacket failed: connection closed *)
-      | _ => mkN (n_h s) (n_W s) tr1 (n_procs s) false         (* duplicate (or dropped space): not handled *)
+      | _ => mkN (n_h s) tr1 (n_procs s) false         (* duplicate (or dropped space): not handled *)
       end
     | _ => s                                                   (* does not open: dropped *)
     end
@@ -73,14 +74,14 @@ Definition nstep (s : nst) (e : nev) : nst :=
 
 Definition nrun (s : nst) (evs : list nev) : nst := fold_left nstep evs s.
 
-(** ** invariant: C07's [invW], and every processed number was accepted by ReceivedPacket —
+(** ** invariant: C07's [dup_inv], and every processed number was accepted by ReceivedPacket —
     except possibly the very last one when that call failed and closed the connection *)
 Definition pns (s : nst) : list Z := map (fun x => fst (fst x)) (n_procs s).
 
 Record NInv (s : nst) : Prop := {
-  ni_w : invW (n_tr s) (n_h s) (n_W s);
+  ni_d : dup_inv (n_tr s) (n_h s);
   ni_acc : n_closed s = false -> forall q, In q (pns s) -> accepted (n_tr s) 2%nat q;
-  ni_nodup : (forall q, In q (pns s) -> ~ le_opt q (n_W s 2%nat)) -> NoDup (pns s)
+  ni_nodup : NoDup (pns s)
 }.
 
 Lemma L1_sp : sp_of L1 = Some 2%nat.
@@ -97,53 +98,44 @@ Proof. unfold pns. rewrite map_app. reflexivity. Qed.
 
 Lemma nstep_NInv s e : NInv s -> NInv (nstep s e).
 Proof.
-  intros HI. pose proof HI as [Iw Ia Hnd]. unfold nstep. destruct (n_closed s) eqn:Ec; [exact HI|].
+  intros HI. pose proof HI as [Id Ia Hnd]. unfold nstep. destruct (n_closed s) eqn:Ec; [exact HI|].
   destruct e as [o|data cidLen largest ecn t ae].
   - destruct (is_app_recv o) eqn:Eo; [exact HI|].
-    pose proof (invW_step _ _ _ o Iw) as Iw'.
-    constructor; cbn [n_h n_W n_tr n_procs n_closed pns]; auto.
-    + intros _ q Hq. apply accepted_app_l. apply (Ia eq_refl); exact Hq.
-    + intros Hnw. apply Hnd. intros q Hq Hle. apply (Hnw q Hq). now apply le_opt_wstep.
+    pose proof (dup_inv_step _ _ o Id) as Id'.
+    constructor; cbn [n_h n_tr n_procs n_closed pns]; auto.
+    intros _ q Hq. apply accepted_app_l. apply (Ia eq_refl); exact Hq.
   - destruct (unprotect aead_open hp_mask false (S cidLen) largest data) as [first pn pnLen kp p| | | | | | ] eqn:Eu;
       try exact HI.
     rewrite isdup_app.
-    pose proof (invW_step _ _ _ (IsDup pn L1) Iw) as Iw1. rewrite isdup_app in Iw1.
-    cbn [step fst wstep] in Iw1.
+    pose proof (dup_inv_step _ _ (IsDup pn L1) Id) as Id1. rewrite isdup_app in Id1.
+    cbn [step fst] in Id1.
     destruct (is_dup (tHist (aTr (hApp (n_h s)))) pn) eqn:Ed.
     + (* flagged as duplicate: dropped *)
-      constructor; cbn [n_h n_W n_tr n_procs n_closed pns]; auto.
+      constructor; cbn [n_h n_tr n_procs n_closed pns]; auto.
       intros _ q Hq. apply accepted_app_l. apply (Ia eq_refl); exact Hq.
     + set (o := Recv pn ecn L1 t ae).
-      pose proof (invW_step _ _ _ o Iw1) as Iw2.
-      constructor; cbn [n_h n_W n_tr n_procs n_closed].
-      * exact Iw2.
+      pose proof (dup_inv_step _ _ o Id1) as Id2.
+      constructor; cbn [n_h n_tr n_procs n_closed].
+      * exact Id2.
       * intros Hc q Hq. unfold pns in Hq. cbn [n_procs] in Hq. rewrite pns_app in Hq. cbn [fst] in Hq.
         apply in_app_or in Hq. destruct Hq as [Hq|[Hq|[]]].
         -- apply accepted_app_l. apply accepted_app_l. apply (Ia eq_refl); exact Hq.
         -- subst q. exists ecn, L1, t, ae. split; [|exact L1_sp]. apply in_or_app. right.
            destruct (snd (step (n_h s) o)) eqn:Er; try discriminate. left. reflexivity.
-      * intros Hnw. unfold pns. cbn [n_procs]. rewrite pns_app. cbn [fst].
-        assert (Hold : NoDup (pns s)).
-        { apply Hnd. intros q Hq Hle. apply (Hnw q); [unfold pns; cbn [n_procs]; rewrite pns_app; apply in_or_app; now left|].
-          now apply le_opt_wstep. }
+      * unfold pns. cbn [n_procs]. rewrite pns_app. cbn [fst].
         assert (Hnew : ~ In pn (pns s)).
         { intros Hin. specialize (Ia eq_refl pn Hin).
-          destruct Iw as (HA & HW). specialize (HW 2%nat (tHist (aTr (hApp (n_h s)))) pn eq_refl Ia).
-          destruct (HA 2%nat _ eq_refl) as (Hok & _).
-          destruct HW as [H|[H|H]]; cbn [fst snd] in H.
-          - assert (is_dup (tHist (aTr (hApp (n_h s)))) pn = true) by (apply is_dup_spec; auto). congruence.
-          - assert (is_dup (tHist (aTr (hApp (n_h s)))) pn = true) by (apply is_dup_spec; auto). congruence.
-          - apply (Hnw pn); [unfold pns; cbn [n_procs]; rewrite pns_app; apply in_or_app; right; left; reflexivity|].
-            now apply le_opt_wstep. }
-        clear - Hold Hnew. induction (pns s) as [|a l IH]; cbn.
+          destruct (dup_always_step (n_tr s) (n_h s) 2%nat (tHist (aTr (hApp (n_h s)))) pn L1 Id eq_refl Ia L1_sp)
+            as (_ & Hd & _). congruence. }
+        clear - Hnd Hnew. induction (pns s) as [|a l IH]; cbn.
         -- constructor; [intros []|constructor].
-        -- inversion Hold; subst. constructor.
+        -- inversion Hnd; subst. constructor.
            ++ rewrite in_app_iff. intros [H|[H|[]]]; [contradiction|]. apply Hnew. left. auto.
            ++ apply IH; auto. intros H. apply Hnew. right. exact H.
 Qed.
 
 Lemma nst0_NInv : NInv nst0.
-Proof. constructor; cbn; [apply invW_init|intros _ q []|intros _; constructor]. Qed.
+Proof. constructor; cbn; [apply dup_inv_init|intros _ q []|constructor]. Qed.
 
 Lemma nrun_NInv evs : forall s, NInv s -> NInv (nrun s evs).
 Proof. induction evs as [|e evs IH]; intros s H; [exact H|]. cbn [nrun fold_left]. apply IH. now apply nstep_NInv. Qed.
@@ -175,26 +167,16 @@ Proof. induction evs as [|e evs IH]; intros s H; [exact H|]. cbn [nrun fold_left
 Variable sent : list (Z * Z * list Z).      (* packet number, key phase, plaintext of every packet the sender sealed *)
 Hypothesis honest : forall pn kp hdr p, sealed pn kp hdr p -> In (pn, kp, p) sent.
 
+(** Every processed packet is one the sender sealed, and no packet (number) is processed twice — for every
+    sequence of arrivals and handler calls; no hypothesis on the received-packet history. *)
 Theorem processed_from_sent evs :
   let s := nrun nst0 evs in
-  incl (n_procs s) sent /\
-  ((forall q, In q (pns s) -> ~ le_opt q (n_W s 2%nat)) -> NoDup (pns s) /\ NoDup (n_procs s)).
+  incl (n_procs s) sent /\ NoDup (pns s) /\ NoDup (n_procs s).
 Proof.
   cbn zeta. pose proof (nrun_NInv evs nst0 nst0_NInv) as [_ _ Hn].
   pose proof (nrun_sealed evs nst0 ltac:(constructor)) as Hs.
   split.
   - intros [[pn kp] p] Hin. rewrite Forall_forall in Hs. destruct (Hs _ Hin) as (hdr & H). eapply honest; eauto.
-  - intros Hw. specialize (Hn Hw). split; [exact Hn|]. unfold pns in Hn. eapply NoDup_map_inv; eauto.
-Qed.
-
-(** The form the at-most-once statement takes once the received-packet history never forgets a number it
-    accepted (C07's repair fixes/C07-trimmed-history-counts-as-received.patch: trimming raises deletedBelow, so
-    no watermark is ever set): with no watermark in the application-data space every packet is processed at
-    most once, unconditionally. *)
-Corollary processed_once_no_watermark evs :
-  let s := nrun nst0 evs in
-  n_W s 2%nat = None -> NoDup (pns s) /\ NoDup (n_procs s).
-Proof.
-  cbn zeta. intros HW. apply (processed_from_sent evs). intros q _ Hle. rewrite HW in Hle. exact Hle.
+  - split; [exact Hn|]. unfold pns in Hn. eapply NoDup_map_inv; eauto.
 Qed.
 End Net.
